@@ -36,6 +36,9 @@ type hGenAcc struct {
 	Key     int   `json:"key"`
 	Balance int64 `json:"bal"`
 	NoPub   bool  `json:"nopub,omitempty"` // account stored without a public key
+	// PubOf-1 is the key index whose public key is stored on this account instead of its own (0 = its own): a
+	// genesis document may register any key under any address
+	PubOf int `json:"pub_of,omitempty"`
 }
 
 type hFeeMulti struct {
@@ -225,6 +228,9 @@ func buildGenesis(g *hGenesis, pool []simKey) (*simGenesis, error) {
 		acc := &authtypes.BaseAccount{Address: pool[ga.Key].Addr, Coins: sdk.NewCoins(sdk.NewCoin(sdk.DefaultStakeDenom, sdk.NewInt(ga.Balance)))}
 		if !ga.NoPub {
 			acc.PubKey = pool[ga.Key].Pub
+			if ga.PubOf > 0 {
+				acc.PubKey = pool[mod(ga.PubOf-1, len(pool))].Pub
+			}
 		}
 		sg.Auth.Accounts = append(sg.Auth.Accounts, acc)
 	}
